@@ -326,7 +326,15 @@ def _catalogue():
     F("utils.quat_abs_scalar", lambda R: ([{"gen": "qscalar", "q": [R.uniform(-2, 2) for _ in range(4)]}], {}))
     # image / restoration helpers (qslst)
     def img(R, c=4):
-        return {"gen": "realnd", "shape": [R.randint(1, 4), R.randint(1, 4), c], "seed": R.randrange(10 ** 6)}
+        # Gaussian data, or image-like data: inside [0, 1], or with the slight under/overshoot a
+        # restoration leaves (the "values look normalised" branches are data dependent)
+        d = {"gen": "realnd", "shape": [R.randint(1, 4), R.randint(1, 4), c], "seed": R.randrange(10 ** 6)}
+        x = R.random()
+        if x < 0.3:
+            d.update(lo=0.0, hi=1.0)
+        elif x < 0.6:
+            d.update(lo=-0.3, hi=1.3)
+        return d
     F("qslst.rgb_to_quat", lambda R: ([img(R, 3)], {"real_part": R.choice([0.0, 0.5])}))
     F("qslst.quat_to_rgb", lambda R: ([img(R, 4)], {"clip": R.random() < 0.5}))
     F("qslst.split_quat_channels", lambda R: ([img(R, 4)], {}))
@@ -788,7 +796,7 @@ def gen_jobs(base_seed, tier, budget=None):
                       "cfgname": cfgname, "tags": {"offtype": "sparse"}}]
             jobs.append({"seed": seed, "trace": {"prop": PROP, "seed": seed, "world": w, "mode": "offtype",
                                                  "cfgname": cfgname, "seq": ["sparse"], "steps": steps}})
-    n_rand = budget if budget is not None else (400 if tier == "quick" else 12000)
+    n_rand = budget if budget is not None else (600 if tier == "quick" else 12000)
     for i in range(n_rand):
         seed = base_seed * 10 ** 6 + i
         for w in worlds:     # the same trace in every world (import-identity oracle)
